@@ -380,6 +380,34 @@ class Body:
         p = base
         for e in proj:
             p = p.extend(_elem_of(e))
+        # a capture read through a closure value built in this body (a closure body spliced in next to its creation site):
+        # field i of the single-assignment closure aggregate is the operand captured there
+        hops = 0
+        while hops < 6 and p.elems and not (1 <= p.root <= self.arg_count) and p.root != 0 and _depth < 30:
+            els = list(p.elems)
+            while len(els) >= 2 and els[0][0] == "ref" and els[1][0] == "deref":
+                els = els[2:]
+            if not els or els[0][0] != "field":
+                break
+            owner = str(els[0][1] or "")
+            plain = getattr(self.facts, "plain_structs", None) or ()
+            if not (owner.startswith("closure:") or owner == "tuple" or owner in plain):
+                break
+            d = self.unique_def(p.root)
+            if d is None or d[1] != "assign" or d[2]["rv"]["k"] != "aggregate" or els[0][2] >= len(d[2]["rv"]["ops"]):
+                break
+            agg = d[2]["rv"]
+            if not ((owner.startswith("closure:") and agg.get("agg") == "closure") or (owner == "tuple" and agg.get("agg") == "tuple")
+                    or (owner in plain and agg.get("agg") == "adt" and agg.get("adt") == owner)):
+                break
+            op = d[2]["rv"]["ops"][els[0][2]]
+            if op["k"] not in ("copy", "move"):
+                break
+            q = self.expand(op["place"], _depth + 1, alias)
+            for e in els[1:]:
+                q = q.extend(e)
+            p = q
+            hops += 1
         return p
 
     def _expand_local(self, local, depth, alias=False):
@@ -438,6 +466,13 @@ class Body:
             if d[1] == "assign" and d[2]["rv"]["k"] == "use" and d[2]["rv"]["op"]["k"] in ("copy", "move") and not d[2]["rv"]["op"]["place"]["proj"]:
                 op = d[2]["rv"]["op"]
                 continue
+            if d[1] == "assign" and d[2]["rv"]["k"] == "use" and d[2]["rv"]["op"]["k"] in ("copy", "move") and d[2]["rv"]["op"]["place"]["proj"] \
+                    and all(e["k"] == "field" for e in d[2]["rv"]["op"]["place"]["proj"]):
+                # a field of a tuple / plan-like struct / closure built in this body: continue from the operand stored there (see expand)
+                q = self.expand(d[2]["rv"]["op"]["place"])
+                if not q.elems and q.root != d[2]["rv"]["op"]["place"]["local"] and q.root != pl["local"]:
+                    op = {"k": "move", "place": {"local": q.root, "proj": [], "ty": self.locals[q.root]["ty"]}}
+                    continue
             if through_casts and d[1] == "assign" and d[2]["rv"]["k"] == "cast":
                 op = d[2]["rv"]["op"]
                 continue
